@@ -287,9 +287,25 @@ class Sc:
     def __hash__(self):
         return hash(self.v)
 
-    def _nocmp(self, o):
-        raise Unsupported("order comparison of symbolic Mode-B scalars (Mode B never forks)")
-    __lt__ = __le__ = __gt__ = __ge__ = _nocmp
+    def _cmp(self, o, op):
+        """order comparisons are decided exactly when both sides are constants of the field (float operands such as EPS are exact
+        binary rationals); otherwise they depend on the values of the symbols and Mode B never forks"""
+        from fractions import Fraction
+        a = self.const_value()
+        if isinstance(o, Sc):
+            b = o.const_value()
+        elif isinstance(o, (int, float, Fraction)) and o == o and o not in (float("inf"), float("-inf")):
+            b = Fraction(o)
+        else:
+            b = None
+        if a is None or b is None:
+            raise Unsupported("order comparison of symbolic Mode-B scalars (Mode B never forks)")
+        return op(Fraction(a), b)
+
+    def __lt__(self, o): return self._cmp(o, lambda a, b: a < b)
+    def __le__(self, o): return self._cmp(o, lambda a, b: a <= b)
+    def __gt__(self, o): return self._cmp(o, lambda a, b: a > b)
+    def __ge__(self, o): return self._cmp(o, lambda a, b: a >= b)
 
     def __bool__(self):
         return not self.F.is_zero(self.v)
